@@ -201,6 +201,35 @@ impl<'tcx, 'a> Cx<'tcx, 'a> {
                 _ => o.push(("bits", J::I(bits as i128))),
             }
         }
+        // a named integer constant without generic parameters (`const BLOCK: usize = 256`): its value, for size-dependent tables
+        if let Const::Unevaluated(uv, _) = c.const_ {
+            if uv.promoted.is_none() && uv.args.is_empty() && matches!(ty.kind(), ty::Int(_) | ty::Uint(_)) {
+                let tcx = self.tcx;
+                let env = self.env;
+                let cc = c.const_;
+                let span = c.span;
+                let r = std::panic::catch_unwind(std::panic::AssertUnwindSafe(|| cc.eval(tcx, env, span).ok().and_then(|v| v.try_to_scalar_int())));
+                if let Ok(Some(si)) = r {
+                    let size = si.size();
+                    let bits = si.to_bits(size);
+                    let v = match ty.kind() {
+                        ty::Int(_) => {
+                            let n = size.bits();
+                            if n == 0 {
+                                0
+                            } else if n >= 128 {
+                                bits as i128
+                            } else {
+                                let shift = 128 - n as u32;
+                                ((bits << shift) as i128) >> shift
+                            }
+                        }
+                        _ => bits as i128,
+                    };
+                    o.push(("uval", J::I(v)));
+                }
+            }
+        }
         o.push(("text", s(with_no_trimmed_paths!(c.const_.to_string()))));
         J::O(o)
     }
